@@ -2,10 +2,10 @@
 import json
 
 def run(ctx):
-    ctx.tlc_mc("MC_BigNum", "MC_BigNum.cfg", workers=1, coverage=False, timeout=600)
-    ctx.tlc_mc("MC_Rings", "MC_Rings.cfg", workers=1, coverage=False, timeout=600)
+    ctx.tlc_mc("MC_BigNum", "MC_BigNum.cfg", workers=1, coverage=False, timeout=600, cache=True)
+    ctx.tlc_mc("MC_Rings", "MC_Rings.cfg", workers=1, coverage=False, timeout=600, cache=True)
     # the contracts accept a reference implementation and pin the answers down on complete small domains
-    ctx.tlc_mc("MC_EucOps", "MC_EucOps.cfg", workers=1, coverage=False, timeout=900)
+    ctx.tlc_mc("MC_EucOps", "MC_EucOps.cfg", workers=1, coverage=False, timeout=900, cache=True)
     # A: TLC enumerates the complete small operand domains
     cfg = "Gen_EucOps.thorough.cfg" if ctx.thorough else "Gen_EucOps.quick.cfg"
     path, objs = ctx.tlc_gen("Gen_EucOps", cfg, workers=1)
